@@ -12,6 +12,60 @@ from sa.rules.c01 import python_codec_tables
 RG = f"{C.ITER_MOD}:RustGenerator"
 
 
+def check_epoch(ctx: Context, rep, rule: str) -> None:
+    single = ctx.fn(f"{RG}._single_iter")
+    ctor = [c for c in single.calls() if ast.unparse(c.func).endswith(
+        "_sedpack_rs.RustIter")]
+    if len(ctor) != 1:
+        raise AnalysisError("C15.repeat: RustIter construction not found")
+    c = ctor[0]
+    kw = {k.arg: k.value for k in c.keywords}
+    rep.ob(rule, isinstance(kw.get("repeat"), ast.Constant) and
+           kw["repeat"].value is False, loc=single.loc(c),
+           where=single.qualname,
+           construct=f"RustIter(repeat={short(kw.get('repeat'))})",
+           message="literal repeat=False")
+    rep.ob(rule, "compression" in ast.unparse(kw.get("compression",
+                                                             ast.Constant(0)))
+           and "dataset_structure" in ast.unparse(kw.get("compression",
+                                                         ast.Constant(0))),
+           loc=single.loc(c), where=single.qualname,
+           construct=f"compression={short(kw.get('compression'))}",
+           message="the decoder is chosen by the dataset's own compression")
+    rep.ob(rule, dotted(kw.get("threads")) == "self._file_parallelism",
+           loc=single.loc(c), where=single.qualname,
+           construct=f"threads={short(kw.get('threads'))}",
+           message="thread count comes from the caller's file_parallelism")
+    files = kw.get("files")
+    # files derives from list(as_numpy_common(...)) without slicing
+    defs = {}
+    for n in single.body_nodes():
+        if isinstance(n, (ast.Assign, ast.AnnAssign)):
+            tgts = n.targets if isinstance(n, ast.Assign) else [n.target]
+            for t in tgts:
+                if isinstance(t, ast.Name) and n.value is not None:
+                    defs[t.id] = n.value
+    fdef = defs.get(files.id) if isinstance(files, ast.Name) else files
+    ok_files = isinstance(fdef, ast.Call) and isinstance(
+        fdef.func, ast.Name) and fdef.func.id == "list" and len(
+            fdef.args) == 1 and isinstance(fdef.args[0], ast.Call) and \
+        ast.unparse(fdef.args[0].func).endswith("as_numpy_common")
+    rep.ob(rule, bool(ok_files), loc=single.loc(c), where=single.qualname,
+           construct=f"files={short(fdef, 60)}",
+           message="the native reader gets every selected shard path, in "
+           "order")
+    # epoch: after the pass the iterator is dropped and forgotten
+    tail = [n for n in single.node.body[-2:]]
+    ok_tail = len(tail) == 2 and "__exit__" in ast.unparse(tail[0]) and \
+        isinstance(tail[1], ast.Assign) and ast.unparse(tail[1]) == \
+        "self._rust_iter = None"
+    rep.ob(rule, ok_tail, loc=single.loc(tail[0]), where=single.qualname,
+           construct="; ".join(short(t) for t in tail),
+           message="each epoch ends by releasing the native iterator so the "
+           "next epoch builds a fresh one")
+
+
+
 def run(ctx: Context, rep) -> None:
     rep.not_decided = (
         "equality of the two readers' outputs on real data, behaviour under "
@@ -67,56 +121,8 @@ def run(ctx: Context, rep) -> None:
         "dataset's compression and the configured thread count; the epoch "
         "loop re-creates it after each pass")
     rustrules.check_repeat_assert(ctx, rep, "C15.repeat")
+    check_epoch(ctx, rep, "C15.repeat")
     single = ctx.fn(f"{RG}._single_iter")
-    ctor = [c for c in single.calls() if ast.unparse(c.func).endswith(
-        "_sedpack_rs.RustIter")]
-    if len(ctor) != 1:
-        raise AnalysisError("C15.repeat: RustIter construction not found")
-    c = ctor[0]
-    kw = {k.arg: k.value for k in c.keywords}
-    rep.ob("C15.repeat", isinstance(kw.get("repeat"), ast.Constant) and
-           kw["repeat"].value is False, loc=single.loc(c),
-           where=single.qualname,
-           construct=f"RustIter(repeat={short(kw.get('repeat'))})",
-           message="literal repeat=False")
-    rep.ob("C15.repeat", "compression" in ast.unparse(kw.get("compression",
-                                                             ast.Constant(0)))
-           and "dataset_structure" in ast.unparse(kw.get("compression",
-                                                         ast.Constant(0))),
-           loc=single.loc(c), where=single.qualname,
-           construct=f"compression={short(kw.get('compression'))}",
-           message="the decoder is chosen by the dataset's own compression")
-    rep.ob("C15.repeat", dotted(kw.get("threads")) == "self._file_parallelism",
-           loc=single.loc(c), where=single.qualname,
-           construct=f"threads={short(kw.get('threads'))}",
-           message="thread count comes from the caller's file_parallelism")
-    files = kw.get("files")
-    # files derives from list(as_numpy_common(...)) without slicing
-    defs = {}
-    for n in single.body_nodes():
-        if isinstance(n, (ast.Assign, ast.AnnAssign)):
-            tgts = n.targets if isinstance(n, ast.Assign) else [n.target]
-            for t in tgts:
-                if isinstance(t, ast.Name) and n.value is not None:
-                    defs[t.id] = n.value
-    fdef = defs.get(files.id) if isinstance(files, ast.Name) else files
-    ok_files = isinstance(fdef, ast.Call) and isinstance(
-        fdef.func, ast.Name) and fdef.func.id == "list" and len(
-            fdef.args) == 1 and isinstance(fdef.args[0], ast.Call) and \
-        ast.unparse(fdef.args[0].func).endswith("as_numpy_common")
-    rep.ob("C15.repeat", bool(ok_files), loc=single.loc(c), where=single.qualname,
-           construct=f"files={short(fdef, 60)}",
-           message="the native reader gets every selected shard path, in "
-           "order")
-    # epoch: after the pass the iterator is dropped and forgotten
-    tail = [n for n in single.node.body[-2:]]
-    ok_tail = len(tail) == 2 and "__exit__" in ast.unparse(tail[0]) and \
-        isinstance(tail[1], ast.Assign) and ast.unparse(tail[1]) == \
-        "self._rust_iter = None"
-    rep.ob("C15.repeat", ok_tail, loc=single.loc(tail[0]), where=single.qualname,
-           construct="; ".join(short(t) for t in tail),
-           message="each epoch ends by releasing the native iterator so the "
-           "next epoch builds a fresh one")
 
     rep.rule(
         "C15.decode",
